@@ -31,12 +31,13 @@ def Cmd.text : Cmd → Str
   | .setVar k v => sExport ++ [32] ++ k ++ [61] ++ emitVal v
   | .unsetVar k => sUnset ++ [32] ++ k
   | .aliasDef k v => k ++ [40, 41, 32, 123, 32] ++ v ++ [32, 59, 32, 125]
-  | .aliasDel k => sUnset ++ [32] ++ k
+  | .aliasDel k => sUnset ++ [32] ++ sDashF ++ [32] ++ k
 
 /-- commands whose evaluation `shEval` covers -/
 def Cmd.Good : Cmd → Prop
   | .setVar k v => isIdent k = true ∧ InAlphabet v
   | .unsetVar k => isIdent k = true
+  | .aliasDel k => isIdent k = true
   | _ => False
 
 /-! ### characters -/
@@ -179,7 +180,7 @@ theorem splitEq_ident (k v : Str) (h : ∀ c ∈ k, c ≠ 61) : splitEq (k ++ 61
     simp [splitEq, hc, ih (fun d hd => h d (by simp [hd]))]
 
 /-- state after the words of a command have been read, before its terminator -/
-def mid (env : Env) (w0 w1 : Str) : Sh := { env := env, args := [w0], cur := some w1, inq := false }
+def mid (env : Env) (ws : List Str) (w1 : Str) : Sh := { env := env, args := ws, cur := some w1, inq := false }
 
 theorem feed_keyword (env : Env) (kw : Str) (hkw : ∀ c ∈ kw, isSafe c = true) (hne : kw ≠ []) :
     feed (clean env) (kw ++ [32]) = some { env := env, args := [kw], cur := none, inq := false } := by
@@ -187,7 +188,7 @@ theorem feed_keyword (env : Env) (kw : Str) (hkw : ∀ c ∈ kw, isSafe c = true
   simp [feed_cons, feed_nil, stepChar, clean, endWord]
 
 theorem feed_setVar (env : Env) (k v : Str) (hk : isIdent k = true) (hv : InAlphabet v) :
-    feed (clean env) (Cmd.text (.setVar k v)) = some (mid env sExport (k ++ 61 :: v)) := by
+    feed (clean env) (Cmd.text (.setVar k v)) = some (mid env [sExport] (k ++ 61 :: v)) := by
   have hks := ident_safe hk
   have hkne : k ≠ [] := by intro h; subst h; simp [isIdent] at hk
   have hk61 : ∀ c ∈ k ++ [61], isSafe c = true := by
@@ -217,7 +218,7 @@ theorem feed_setVar (env : Env) (k v : Str) (hk : isIdent k = true) (hv : InAlph
       simp [mid]
 
 theorem feed_unsetVar (env : Env) (k : Str) (hk : isIdent k = true) :
-    feed (clean env) (Cmd.text (.unsetVar k)) = some (mid env sUnset k) := by
+    feed (clean env) (Cmd.text (.unsetVar k)) = some (mid env [sUnset] k) := by
   have hks := ident_safe hk
   have hkne : k ≠ [] := by intro h; subst h; simp [isIdent] at hk
   simp only [Cmd.text]
@@ -230,32 +231,58 @@ theorem exec_export (env : Env) (k v : Str) (hk : isIdent k = true) :
     exec env [sExport, k ++ 61 :: v] = some (env.set k v) := by
   simp [exec, exportArg, splitEq_ident k v (ident_no_eq hk), hk]
 
+theorem ident_ne_dashF {k : Str} (hk : isIdent k = true) : k ≠ sDashF := by
+  intro e; subst e; revert hk; decide
+
 theorem exec_unset (env : Env) (k : Str) (hk : isIdent k = true) :
     exec env [sUnset, k] = some (env.unset k) := by
   have : (sUnset == sExport) = false := by decide
-  simp [exec, this, unsetArg, hk]
+  simp [exec, this, unsetArg, hk, ident_ne_dashF hk]
 
-/-- a good command leaves the reader with two words whose execution is the command's effect -/
+theorem feed_aliasDel (env : Env) (k : Str) (hk : isIdent k = true) :
+    feed (clean env) (Cmd.text (.aliasDel k)) = some (mid env [sUnset, sDashF] k) := by
+  have hks := ident_safe hk
+  have hkne : k ≠ [] := by intro h; subst h; simp [isIdent] at hk
+  simp only [Cmd.text]
+  rw [show sUnset ++ [32] ++ sDashF ++ [32] ++ k = (sUnset ++ [32]) ++ ((sDashF ++ [32]) ++ k) by simp,
+    feed_append, feed_keyword env sUnset (by decide) (by decide)]
+  simp only [Option.bind_some]
+  rw [feed_append, feed_append, feed_safe sDashF _ rfl (by decide) (by decide)]
+  simp only [Option.bind_some, Option.getD_none, List.nil_append]
+  have : feed { env := env, args := [sUnset], cur := some sDashF, inq := false } [32] =
+      some { env := env, args := [sUnset, sDashF], cur := none, inq := false } := by
+    simp [feed_cons, feed_nil, stepChar, endWord]
+  rw [this]
+  simp only [Option.bind_some]
+  rw [feed_safe k _ rfl hks hkne]
+  simp [mid]
+
+theorem exec_unset_f (env : Env) (k : Str) (hk : isIdent k = true) :
+    exec env [sUnset, sDashF, k] = some env := by
+  have : (sUnset == sExport) = false := by decide
+  simp [exec, this, hk]
+
+/-- a good command leaves the reader with words whose execution is the command's effect -/
 theorem feed_good (env : Env) (c : Cmd) (h : c.Good) :
-    ∃ w0 w1, feed (clean env) c.text = some (mid env w0 w1) ∧ exec env [w0, w1] = some (c.apply env) := by
+    ∃ ws w1, feed (clean env) c.text = some (mid env ws w1) ∧ exec env (ws ++ [w1]) = some (c.apply env) := by
   cases c with
   | setVar k v => exact ⟨_, _, feed_setVar env k v h.1 h.2, exec_export env k v h.1⟩
   | unsetVar k => exact ⟨_, _, feed_unsetVar env k h, exec_unset env k h⟩
   | aliasDef k v => exact absurd h (by simp [Cmd.Good])
-  | aliasDel k => exact absurd h (by simp [Cmd.Good])
+  | aliasDel k => exact ⟨_, _, feed_aliasDel env k h, exec_unset_f env k h⟩
 
-theorem step_semicolon (env : Env) (w0 w1 : Str) (e' : Env) (h : exec env [w0, w1] = some e') :
-    stepChar (mid env w0 w1) 59 = some (clean e') := by
+theorem step_semicolon (env : Env) (ws : List Str) (w1 : Str) (e' : Env) (h : exec env (ws ++ [w1]) = some e') :
+    stepChar (mid env ws w1) 59 = some (clean e') := by
   simp [stepChar, mid, endWord, h]
 
-theorem step_newline_mid (env : Env) (w0 w1 : Str) (e' : Env) (h : exec env [w0, w1] = some e') :
-    stepChar (mid env w0 w1) 10 = some (clean e') := by
+theorem step_newline_mid (env : Env) (ws : List Str) (w1 : Str) (e' : Env) (h : exec env (ws ++ [w1]) = some e') :
+    stepChar (mid env ws w1) 10 = some (clean e') := by
   simp [stepChar, mid, endWord, h]
 
 theorem step_newline_clean (env : Env) : stepChar (clean env) 10 = some (clean env) := by
   simp [stepChar, clean, endWord, exec]
 
-theorem finish_mid (env : Env) (w0 w1 : Str) : finish (mid env w0 w1) = exec env [w0, w1] := by
+theorem finish_mid (env : Env) (ws : List Str) (w1 : Str) : finish (mid env ws w1) = exec env (ws ++ [w1]) := by
   simp [finish, mid, endWord]
 
 theorem finish_clean (env : Env) : finish (clean env) = some env := by
@@ -274,7 +301,7 @@ theorem shEval_join (cmds : List Cmd) (hg : ∀ c ∈ cmds, c.Good) (nl : Bool) 
     · simp [join, shEval, feed_cons, feed_nil, step_newline_clean, finish_clean, applyAll_nil]
   | cons c rest ih =>
     intro env
-    obtain ⟨w0, w1, hf, he⟩ := feed_good env c (hg c (by simp))
+    obtain ⟨ws, w1, hf, he⟩ := feed_good env c (hg c (by simp))
     cases rest with
     | nil =>
       simp only [List.map_cons, List.map_nil, join, applyAll_cons, applyAll_nil]
@@ -541,6 +568,9 @@ theorem tracks_run (base : Env) (a : Act) (s : SetupSt) (h : Tracks s.old base) 
     · exact h
     · exact tracks_forget h k
   | unset k => exact h
+  | alias f d k v =>
+    simp only [Act.run, aliasAct]
+    split <;> exact h
 
 theorem tracks_runActs (acts : List Act) (base : Env) : Tracks (runActs false acts base).old base := by
   have : ∀ (s : SetupSt), Tracks s.old base → Tracks (acts.foldl (fun s a => a.run false s) s).old base := by
@@ -641,8 +671,12 @@ theorem exec_inv (env e : Env) (args : List Str) (ha : ∀ w ∈ args, NoMeta w)
       · exact foldlM_inv (fun e => e.get k ≠ some v) exportArg r env e
           (fun x hx e1 e2 hp1 hx1 => exportArg_inv k v hm e1 e2 x (ha x (by simp [hx])) hp1 hx1) hp h
     · split at h
-      · exact foldlM_inv (fun e => e.get k ≠ some v) unsetArg r env e
-          (fun x _ e1 e2 hp1 hx1 => unsetArg_inv k v e1 e2 x hp1 hx1) hp h
+      · split at h
+        · split at h
+          · cases h; exact hp
+          · cases h
+        · exact foldlM_inv (fun e => e.get k ≠ some v) unsetArg r env e
+            (fun x _ e1 e2 hp1 hx1 => unsetArg_inv k v e1 e2 x hp1 hx1) hp h
       · split at h
         · cases h; exact hp
         · cases h
@@ -738,5 +772,112 @@ theorem unquoted_never_meta (env : Env) (text : Str) (hq : ∀ c ∈ text, c ≠
     exact exec_inv k v hm st.env e _ (endWord_args st hi.2.1 hi.2.2.1) hi.2.2.2 h
 
 end quote
+
+end EupsModel.ShellEmit
+
+namespace EupsModel.ShellEmit
+
+/-! ### removed aliases -/
+
+theorem mapM_render_default (l : List Cmd) : l.mapM (render {}) = some (l.map Cmd.text) := by
+  induction l with
+  | nil => rfl
+  | cons c r ih => simp [List.mapM_cons, render_default, ih]
+
+theorem emitAliases_nil (oa : List (Str × Option Str)) :
+    emitAliases [] oa = oa.map fun p => Cmd.aliasDel p.1 := by
+  simp only [emitAliases, List.filterMap_nil, List.nil_append, List.any_nil, Bool.false_eq_true, if_false]
+  induction oa with
+  | nil => rfl
+  | cons p r ih => simp only [List.filterMap_cons, List.map_cons, ih]
+
+theorem applyAll_aliasDels (oa : List (Str × Option Str)) (e : Env) :
+    applyAll (oa.map fun p => Cmd.aliasDel p.1) e = e := by
+  induction oa with
+  | nil => rfl
+  | cons p r ih => simp only [List.map_cons, applyAll_cons, Cmd.apply]; exact ih
+
+end EupsModel.ShellEmit
+
+namespace EupsModel.ShellEmit
+
+/-! ### `unsetup eups`: any options without `-n` -/
+
+/-- `emitVars_apply` for any options without `-n`: when the product is eups itself no variable is protected -/
+theorem emitVarsOn_apply (o : Opts) (hna : o.noaction = false) (old : OldEnv) (base new : Env) (ht : Tracks old base)
+    (hnd : (new.map (·.1)).Nodup)
+    (hprot : o.isEups = true ∨ ∀ k, isProtected k = true → base.has k = true → new.has k = true) :
+    SameEnv (applyAll (emitVarsOn o old new) base) new := by
+  intro k
+  have hhid : ∀ x, hidden o x = false := fun x => by simp [hidden, hna]
+  simp only [emitVarsOn, applyAll_append]
+  rw [unsets_spec, exports_spec o hna old new hnd base (fun p _ hl => ht.2 p.1 p.2 hl) k]
+  cases hn : new.get k with
+  | some v =>
+    have : old.any (fun p => p.1 == k && (unsetCmd? o new p).isSome) = false := by
+      apply List.any_eq_false.mpr
+      intro p _
+      by_cases hk : p.1 = k
+      · subst hk
+        simp [unsetCmd?, Env.has, hn]
+      · simp [hk]
+    simp [this]
+  | none =>
+    simp only
+    split
+    · rfl
+    · rename_i hany
+      cases hb : base.get k with
+      | none => rfl
+      | some vb =>
+        exfalso
+        apply hany
+        have hmem : k ∈ old.map (·.1) := by
+          rw [ht.1]; exact get_isSome_mem_keys base k (by simp [hb])
+        obtain ⟨p, hp, hpk⟩ := List.mem_map.mp hmem
+        apply List.any_eq_true.mpr
+        refine ⟨p, hp, ?_⟩
+        have hnh : new.has k = false := by simp [Env.has, hn]
+        have hpr : (!o.isEups && isProtected k) = false := by
+          rcases hprot with h | h
+          · simp [h]
+          · cases hx : isProtected k with
+            | false => simp
+            | true => rw [h k hx (by simp [Env.has, hb])] at hnh; cases hnh
+        simp [unsetCmd?, hpk, hnh, hpr, hhid]
+
+theorem emitVarsOn_good (o : Opts) (old : OldEnv) (base new : Env) (ht : Tracks old base)
+    (hidb : ∀ p ∈ base, isIdent p.1 = true) (hidn : ∀ p ∈ new, isIdent p.1 = true)
+    (halpha : ∀ p ∈ new, old.lookup p.1 ≠ some (some p.2) → InAlphabet p.2) :
+    ∀ c ∈ emitVarsOn o old new, c.Good := by
+  intro c hc
+  simp only [emitVarsOn, List.mem_append, List.mem_filterMap] at hc
+  rcases hc with ⟨p, hp, hpc⟩ | ⟨p, hp, hpc⟩
+  · simp only [setCmd?] at hpc
+    split at hpc; · cases hpc
+    rename_i hl
+    split at hpc; · cases hpc
+    cases hpc
+    exact ⟨hidn p hp, halpha p hp (by simpa using hl)⟩
+  · simp only [unsetCmd?] at hpc
+    split at hpc; · cases hpc
+    split at hpc; · cases hpc
+    split at hpc; · cases hpc
+    cases hpc
+    have : p.1 ∈ base.map (·.1) := by rw [← ht.1]; exact List.mem_map.mpr ⟨p, hp, rfl⟩
+    obtain ⟨q, hq, hqk⟩ := List.mem_map.mp this
+    show isIdent p.1 = true
+    rw [← hqk]; exact hidb q hq
+
+/-- the options of `unsetup eups` -/
+def unsetupEups : Opts := { isEups := true, fwd := false }
+
+theorem render_unsetupEups (c : Cmd) : render unsetupEups c = some c.text := by
+  cases c <;> simp [render, echoWrap, Cmd.text, unsetupEups]
+
+theorem mapM_render_unsetupEups (l : List Cmd) : l.mapM (render unsetupEups) = some (l.map Cmd.text) := by
+  induction l with
+  | nil => rfl
+  | cons c r ih => simp [List.mapM_cons, render_unsetupEups, ih]
 
 end EupsModel.ShellEmit
